@@ -65,7 +65,7 @@ pub fn reference(
 
 // ---------------------------------------------------------------------------
 
-pub const FAULT_NAMES: [&str; 15] = [
+pub const FAULT_NAMES: [&str; 16] = [
     "caught_panic_in_op",
     "thread_crash",
     "exit_then_respawn",
@@ -84,6 +84,8 @@ pub const FAULT_NAMES: [&str; 15] = [
     "short_lived_threads_churned",
     // `crowd` steps executed (many threads alive at the same time)
     "crowd_of_live_threads",
+    // operations executed back-to-back inside `burst` steps (long single-thread histories)
+    "burst_operations",
 ];
 
 #[derive(Clone, Default)]
@@ -442,6 +444,7 @@ pub fn judge(
     if res.crowded > 0 {
         stats.faults[14] += 1;
     }
+    stats.faults[15] += res.burst_ops;
     stats.dtor_missing += res.dtor_missing as u64;
     stats.max_live = stats.max_live.max(res.max_live);
     Ok(Judged { violations, nontrivial })
